@@ -29,8 +29,72 @@ use std::cell::{Cell, RefCell};
 use std::fmt::Debug;
 use std::panic::{catch_unwind, AssertUnwindSafe};
 
+/// The code under test is `unsafe`: a defect there (double free, wild pointer) aborts the
+/// process instead of unwinding.  The scripts therefore run in a worker process that answers
+/// line by line; when it dies, the supervisor prints 666 for exactly the script that killed it
+/// and continues with a fresh worker, so one crash cannot swallow the results of other scripts.
 fn main() {
-    implrun::run_main(run_line)
+    if std::env::args().nth(1).as_deref() == Some("--worker") {
+        worker::run(run_line_guarded);
+    } else {
+        supervise();
+    }
+}
+
+mod worker {
+    use std::io::{BufRead, Write};
+    /// same contract as the shared `implrun::run_main`, but flushes after every line
+    pub fn run(f: fn(&[u64]) -> Vec<u64>) {
+        std::panic::set_hook(Box::new(|_| {}));
+        let stdin = std::io::stdin();
+        let mut out = std::io::stdout().lock();
+        for line in stdin.lock().lines() {
+            let line = line.expect("read");
+            let nums: Vec<u64> = line.split_whitespace().map(|t| t.parse::<u64>().expect("integer")).collect();
+            let strs: Vec<String> = f(&nums).iter().map(|x| x.to_string()).collect();
+            writeln!(out, "{}", strs.join(" ")).unwrap();
+            out.flush().unwrap();
+        }
+    }
+}
+
+fn run_line_guarded(nums: &[u64]) -> Vec<u64> {
+    catch_unwind(AssertUnwindSafe(|| run_line(nums))).unwrap_or_else(|_| vec![666])
+}
+
+fn supervise() {
+    use std::io::{BufRead, BufReader, BufWriter, Write};
+    use std::process::{Command, Stdio};
+    let lines: Vec<String> = std::io::stdin().lock().lines().map(|l| l.expect("read")).collect();
+    let exe = std::env::current_exe().expect("own path");
+    let mut out = BufWriter::new(std::io::stdout().lock());
+    let mut i = 0;
+    while i < lines.len() {
+        let mut child = Command::new(&exe)
+            .arg("--worker")
+            .stdin(Stdio::piped())
+            .stdout(Stdio::piped())
+            .stderr(Stdio::null())
+            .spawn()
+            .expect("spawn worker");
+        let mut cin = child.stdin.take().expect("worker stdin");
+        let mut cout = BufReader::new(child.stdout.take().expect("worker stdout"));
+        while i < lines.len() {
+            let sent = writeln!(cin, "{}", lines[i]).and_then(|()| cin.flush()).is_ok();
+            let mut resp = String::new();
+            let got = sent && matches!(cout.read_line(&mut resp), Ok(n) if n > 0) && resp.ends_with('\n');
+            i += 1;
+            if got {
+                out.write_all(resp.as_bytes()).unwrap();
+            } else {
+                writeln!(out, "666").unwrap(); // the worker died on this script
+                break;
+            }
+        }
+        drop(cin);
+        let _ = child.wait();
+    }
+    out.flush().unwrap();
 }
 
 fn run_line(nums: &[u64]) -> Vec<u64> {
